@@ -354,7 +354,7 @@ pub fn run(ctx: &mut Ctx) {
     ctx.section(
         "inject",
         "one (vector, variate) pair per case; oracle: range, positive probability, f64 cdf interval, probs/logp validity",
-        t.pick(60_000, 6_000_000),
+        t.pick(1_000_000, 40_000_000),
         16,
         strategy,
         check,
@@ -363,7 +363,7 @@ pub fn run(ctx: &mut Ctx) {
     ctx.section(
         "measure",
         "stratified grid of 2^8..2^18 injected variates per vector: monotone index, measure of each category = probability; plus 4000 seeded draws z-test",
-        t.pick(300, 6_000),
+        t.pick(3_000, 60_000),
         16,
         move || measure_strategy(max_grid),
         measure,
@@ -371,8 +371,8 @@ pub fn run(ctx: &mut Ctx) {
     ctx.section(
         "os-seeded",
         "Categorical::new (OS entropy): validity of probs/logp and 50 draws in range with positive probability",
-        t.pick(500, 20_000),
-        4,
+        t.pick(5_000, 200_000),
+        16,
         strategy,
         check_os,
     );
